@@ -9,4 +9,5 @@ let () =
   | "find" -> Findmodel.run_find ic
   | "glob" -> Globmodel.run_glob ic
   | "report" -> Reportmodel.run_report ic
+  | "vars" -> Varsmodel.run_vars ic
   | m -> prerr_endline ("unknown mode " ^ m); exit 2
